@@ -205,15 +205,17 @@ Lemma round_p_congr x p s lr : wf_params p -> length x = 16%nat -> R10 s lr ->
   exists s', round_p x p s = Ret s' /\ R10 s' (step_p x lr p).
 Proof.
   intros [(Hfl & Hml & Hrl) (Hfr & Hmr & Hrr)] Hx HR.
+  assert (Hml' : 0 <= p_ml p < Z.of_nat (length x)) by (rewrite Hx; lia).
+  assert (Hmr' : 0 <= p_mr p < Z.of_nat (length x)) by (rewrite Hx; lia).
   destruct s as [[[[[[[[[al bl] cl] dl] el] ar] br] cr] dr] er].
   destruct lr as [[[[[A B] C] D] E] [[[[A' B'] C'] D'] E']].
   destruct HR as [HL HRr]. cbn [fst snd] in HL, HRr.
   pose proof HL as (Ha & Hb & Hc & Hd & He). pose proof HRr as (Ha' & Hb' & Hc' & Hd' & He').
   unfold round_p.
   destruct (fi_congr bl cl dl (p_fl p) Hfl) as (fl & Efl & Cfl). rewrite Efl. cbn [bind].
-  rewrite (py_index_ok x (p_ml p) 0) by lia. cbn [bind].
+  rewrite (py_index_ok x (p_ml p) 0) by exact Hml'. cbn [bind].
   destruct (fi_congr br cr dr (p_fr p) Hfr) as (fr & Efr & Cfr). rewrite Efr. cbn [bind].
-  rewrite (py_index_ok x (p_mr p) 0) by lia. cbn [bind].
+  rewrite (py_index_ok x (p_mr p) 0) by exact Hmr'. cbn [bind].
   eexists; split; [reflexivity|].
   unfold R10, step_p. cbn [fst snd]. split.
   - apply line_congr; [exact HL|exact Hrl|]. now rewrite Cfl, Hb, Hc, Hd.
@@ -228,4 +230,232 @@ Proof.
   - inversion Hwf as [|? ? Hp Hps]; subst.
     destruct (round_p_congr x p s lr Hp Hx HR) as (s1 & E1 & R1).
     cbn [rounds_p fold_left]. rewrite E1. cbn [bind]. apply IH; assumption.
+Qed.
+
+(* ---- 3. compress -------------------------------------------------------------------------------------- *)
+(* the standard's step j is step_p with the standard's parameters *)
+Lemma f_by_index : forall j, (j < 80)%nat -> forall x y z,
+  S.f j x y z = fsel (Z.of_nat (j / 16)) x y z /\ S.f (79 - j) x y z = fsel (4 - Z.of_nat (j / 16)) x y z.
+Proof.
+  intros j Hj x y z.
+  do 80 (destruct j as [|j]; [split; reflexivity|]). lia.
+Qed.
+
+Lemma step_is_step_p X lr j : (j < 80)%nat -> S.step X lr j = step_p X lr (spec_params j).
+Proof.
+  intros Hj. destruct lr as [[[[[A B] C] D] E] [[[[A' B'] C'] D'] E']].
+  unfold S.step, step_p, S.line_step, line_p, spec_params. cbn [p_fl p_ml p_kl p_rl p_fr p_mr p_kr p_rr].
+  rewrite !Nat2Z.id.
+  destruct (f_by_index j Hj B C D) as [-> _]. destruct (f_by_index j Hj B' C' D') as [_ ->]. reflexivity.
+Qed.
+
+Lemma spec_rounds_fold X lr :
+  fold_left (S.step X) (seq 0 80) lr = fold_left (step_p X) (map spec_params (seq 0 80)) lr.
+Proof.
+  rewrite fold_left_map. apply fold_left_ext_in. intros st j Hj. apply in_seq in Hj.
+  apply step_is_step_p. lia.
+Qed.
+
+(* the 16 message words *)
+Lemma unpack_word b0 b1 b2 b3 :
+  unpack_L [b0; b1; b2; b3] = Ret (b2z b0 + 256 * b2z b1 + 65536 * b2z b2 + 16777216 * b2z b3).
+Proof.
+  unfold unpack_L. cbn [length Nat.eqb le_decode]. f_equal. unfold b2z. lia.
+Qed.
+
+Lemma unpack_words : forall k a block, length (skipn (4 * a) block) = (4 * k)%nat ->
+  mapM (fun i => unpack_L (slice (4 * i) (4 * (i + 1)) block)) (seq a k) = Ret (S.words (skipn (4 * a) block)).
+Proof.
+  induction k as [|k IH]; intros a block H.
+  - destruct (skipn (4 * a) block); [reflexivity|discriminate].
+  - cbn [seq mapM]. unfold slice at 1.
+    replace (4 * (a + 1) - 4 * a)%nat with 4%nat by lia.
+    specialize (IH (S a) block).
+    replace (4 * S a)%nat with (4 * a + 4)%nat in IH by lia. rewrite <- skipn_add in IH.
+    destruct (skipn (4 * a) block) as [|b0 [|b1 [|b2 [|b3 rest]]]]; try (cbn [length] in H; lia).
+    cbn [firstn]. rewrite unpack_word. cbn [bind].
+    cbn [skipn] in IH. rewrite IH by (cbn [length] in H; lia). cbn [bind S.words]. reflexivity.
+Qed.
+
+Lemma words_length : forall k bs, length bs = (4 * k)%nat -> length (S.words bs) = k.
+Proof.
+  induction k as [|k IH]; intros bs H.
+  - destruct bs; [reflexivity|discriminate].
+  - destruct bs as [|b0 [|b1 [|b2 [|b3 rest]]]]; try (cbn [length] in H; lia).
+    cbn [S.words length]. f_equal. apply IH. cbn [length] in H. lia.
+Qed.
+
+Lemma compress_congr h hs block : length block = 64%nat -> R5 h hs ->
+  exists h', M.compress h block = Ret h' /\ R5 h' (S.compress hs (S.words block)).
+Proof.
+  intros Hlen HR.
+  destruct h as [[[[h0 h1] h2] h3] h4]. destruct hs as [[[[s0 s1] s2] s3] s4].
+  pose proof HR as (E0 & E1 & E2 & E3 & E4).
+  unfold M.compress.
+  pose proof (unpack_words 16 0 block) as Hw. change (skipn (4 * 0) block) with block in Hw. rewrite Hw by exact Hlen. clear Hw.
+  cbn [bind].
+  assert (Hx : length (S.words block) = 16%nat) by (apply words_length; exact Hlen).
+  rewrite (rounds_resolved (S.words block) (range 80) (map spec_params (seq 0 80))).
+  2:{ rewrite rounds_are_standard, map_map. reflexivity. }
+  destruct (rounds_p_congr (S.words block) (map spec_params (seq 0 80))
+              (h0, h1, h2, h3, h4, h0, h1, h2, h3, h4) ((s0, s1, s2, s3, s4), (s0, s1, s2, s3, s4))
+              rounds_wf Hx) as (s' & Es & Rs).
+  { split; exact HR. }
+  rewrite Es. cbn [bind].
+  unfold S.compress. rewrite spec_rounds_fold.
+  destruct s' as [[[[[[[[[al bl] cl] dl] el] ar] br] cr] dr] er].
+  destruct (fold_left (step_p (S.words block)) (map spec_params (seq 0 80)) (s0, s1, s2, s3, s4, (s0, s1, s2, s3, s4)))
+    as [[[[[A B] C] D] E] [[[[A' B'] C'] D'] E']].
+  destruct Rs as [(Ra & Rb & Rc & Rd & Re) (Ra' & Rb' & Rc' & Rd' & Re')].
+  eexists; split; [reflexivity|].
+  unfold R5. subst. unfold wadd.
+  repeat split; rewrite Zplus_mod_idemp_l; rewrite (Z.add_mod (_ + _) _ W) by discriminate;
+    rewrite (Z.add_mod _ _ W) at 1 by discriminate; rewrite Zplus_mod_idemp_l; rewrite <- Z.add_mod by discriminate;
+    reflexivity.
+Qed.
+
+(* ---- 4. block loops, padding, the whole function ------------------------------------------------------ *)
+Definition spec_absorb (h : S.state) (blk : bytes) : S.state := S.compress h (S.words blk).
+
+Lemma blocks_loop_congr data : forall n b st sts, (64 * (b + n) <= length data)%nat -> R5 st sts ->
+  exists st', blocks_loop n b data st = Ret st' /\
+              R5 st' (fold_left spec_absorb (S.blocks_of n (skipn (64 * b) data)) sts).
+Proof.
+  induction n as [|n IH]; intros b st sts Hlen HR.
+  - exists st. split; [reflexivity|exact HR].
+  - cbn [blocks_loop S.blocks_of fold_left]. unfold slice.
+    replace (64 * (b + 1) - 64 * b)%nat with 64%nat by lia.
+    assert (Hb : length (firstn 64 (skipn (64 * b) data)) = 64%nat).
+    { apply firstn_length_le. rewrite skipn_length. lia. }
+    destruct (compress_congr st sts _ Hb HR) as (st1 & E1 & R1). rewrite E1. cbn [bind].
+    rewrite skipn_add. replace (64 * b + 64)%nat with (64 * S b)%nat by lia.
+    apply IH; [lia|exact R1].
+Qed.
+
+Lemma blocks_of_prefix : forall m (a b : bytes), length a = (64 * m)%nat ->
+  S.blocks_of m (a ++ b) = S.blocks_of m a.
+Proof.
+  induction m as [|m IH]; intros a b H; [reflexivity|].
+  cbn [S.blocks_of]. rewrite firstn_app, skipn_app.
+  replace (64 - length a)%nat with 0%nat by lia. cbn [firstn skipn]. rewrite app_nil_r.
+  f_equal. apply IH. rewrite skipn_length. lia.
+Qed.
+
+Lemma blocks_of_app : forall m n (a b : bytes), length a = (64 * m)%nat ->
+  S.blocks_of (m + n) (a ++ b) = S.blocks_of m a ++ S.blocks_of n b.
+Proof.
+  induction m as [|m IH]; intros n a b H.
+  - destruct a; [reflexivity|discriminate].
+  - cbn [S.blocks_of Nat.add app]. rewrite firstn_app, skipn_app.
+    replace (64 - length a)%nat with 0%nat by lia. cbn [firstn skipn]. rewrite app_nil_r.
+    f_equal. apply IH. rewrite skipn_length. lia.
+Qed.
+
+(* the arithmetic of the padding idioms *)
+Lemma shiftr6 (n : nat) : Z.to_nat (Z.shiftr (Z.of_nat n) 6) = (n / 64)%nat.
+Proof.
+  rewrite Z.shiftr_div_pow2 by lia. change (2 ^ 6) with (Z.of_nat 64).
+  rewrite <- Nat2Z.inj_div. apply Nat2Z.id.
+Qed.
+
+(* (119 - len) & 63 *)
+Lemma pad_count (n : nat) : Z.to_nat (Z.land (gen_pad_a - Z.of_nat n) gen_pad_mask) = S.zero_pad n.
+Proof.
+  change gen_pad_a with 119. change gen_pad_mask with (Z.ones 6).
+  rewrite Z.land_ones by lia. change (2 ^ 6) with 64. unfold S.zero_pad.
+  pose proof (Nat.div_mod (n + 9) 64 ltac:(lia)) as H1.
+  pose proof (Nat.mod_upper_bound (n + 9) 64 ltac:(lia)) as H2.
+  set (q := ((n + 9) / 64)%nat) in *. set (t := ((n + 9) mod 64)%nat) in *.
+  assert (E : (119 - Z.of_nat n) mod 64 = Z.of_nat ((64 - t) mod 64)).
+  { destruct (Nat.eq_dec t 0) as [T0|T0].
+    - rewrite T0. change ((64 - 0) mod 64)%nat with 0%nat. symmetry.
+      apply Z.mod_unique_pos with (q := 2 - Z.of_nat q); lia.
+    - rewrite Nat.mod_small by lia. symmetry.
+      apply Z.mod_unique_pos with (q := 1 - Z.of_nat q); lia. }
+  rewrite E. apply Nat2Z.id.
+Qed.
+
+(* len & ~63 *)
+Lemma tail_start (n : nat) : Z.to_nat (Z.land (Z.of_nat n) (Z.lnot gen_tail_mask)) = (64 * (n / 64))%nat.
+Proof.
+  change gen_tail_mask with (Z.ones 6). rewrite <- Z.ldiff_land, Z.ldiff_ones_r by lia.
+  rewrite Z.shiftl_mul_pow2, Z.shiftr_div_pow2 by lia. change (2 ^ 6) with (Z.of_nat 64).
+  rewrite <- Nat2Z.inj_div, <- Nat2Z.inj_mul, Nat2Z.id. lia.
+Qed.
+
+Lemma pack_Q_ok (n : nat) : (Z.of_nat n < 2 ^ 61) ->
+  pack_Q (8 * Z.of_nat n) = Ret (le_encode 8 ((8 * N.of_nat n) mod 2 ^ 64)%N).
+Proof.
+  intros H. unfold pack_Q.
+  destruct ((0 <=? 8 * Z.of_nat n) && (8 * Z.of_nat n <? 2 ^ 64)) eqn:E; [|lia].
+  do 2 f_equal. rewrite N.mod_small; lia.
+Qed.
+
+Lemma pack_word h s : h mod W = s -> pack_L (Z.land h 0xFFFFFFFF) = Ret (S.word_bytes s).
+Proof.
+  intros <-. rewrite land_M32. unfold pack_L, S.word_bytes.
+  pose proof (mod_W_range h) as R. rewrite W_pow in R.
+  destruct ((0 <=? h mod W) && (h mod W <? 2 ^ 32)) eqn:E; [reflexivity|lia].
+Qed.
+
+(* C19, RIPEMD-160: for every message shorter than 2^61 bytes the model returns the standard's digest *)
+Theorem ripemd160_is_standard (data : bytes) : Z.of_nat (length data) < 2 ^ 61 ->
+  M.ripemd160 data = Ret (S.ripemd160 data).
+Proof.
+  intros Hlen. unfold M.ripemd160, S.ripemd160.
+  set (len := length data). set (q := (len / 64)%nat).
+  rewrite shiftr6, pad_count, tail_start, (pack_Q_ok len Hlen). fold q.
+  pose proof (Nat.div_mod len 64 ltac:(lia)) as Hdm. fold q in Hdm.
+  pose proof (Nat.mod_upper_bound len 64 ltac:(lia)) as Hmod.
+  (* first loop *)
+  destruct (blocks_loop_congr data q 0 gen_init S.IV) as (st1 & E1 & R1).
+  { fold len. lia. }
+  { rewrite (ts_IV tables_standard). cbn. repeat split; reflexivity. }
+  rewrite E1. cbn [bind]. cbn [Nat.mul skipn] in R1.
+  (* final blocks *)
+  set (fin := skipn (64 * q) data ++
+              (x80 :: repeat x00 (S.zero_pad len)) ++ le_encode 8 ((8 * N.of_nat len) mod 2 ^ 64)%N).
+  assert (Hfinlen : length fin = (len mod 64 + 1 + S.zero_pad len + 8)%nat).
+  { unfold fin. rewrite !app_length, skipn_length. cbn [length]. rewrite repeat_length, le_encode_length.
+    fold len. lia. }
+  assert (Hfin64 : exists n2, length fin = (64 * n2)%nat).
+  { rewrite Hfinlen. unfold S.zero_pad.
+    pose proof (Nat.div_mod (len + 9) 64 ltac:(lia)) as H1.
+    pose proof (Nat.mod_upper_bound (len + 9) 64 ltac:(lia)) as H2.
+    set (q9 := ((len + 9) / 64)%nat) in *. set (t9 := ((len + 9) mod 64)%nat) in *.
+    destruct (Nat.eq_dec t9 0) as [T0|T0].
+    - rewrite T0. change ((64 - 0) mod 64)%nat with 0%nat. exists (q9 - q)%nat. lia.
+    - rewrite (Nat.mod_small (64 - t9)) by lia. exists (q9 + 1 - q)%nat. lia. }
+  destruct Hfin64 as (n2 & Hn2).
+  rewrite shiftr6. rewrite Hn2. replace (64 * n2 / 64)%nat with n2 by (rewrite Nat.mul_comm, Nat.div_mul; lia).
+  destruct (blocks_loop_congr fin n2 0 st1 _ ltac:(lia) R1) as (st2 & E2 & R2).
+  rewrite E2. cbn [bind]. cbn [Nat.mul skipn] in R2.
+  (* the spec's view: pad data = first 64q bytes ++ fin *)
+  assert (Hpad : S.pad data = firstn (64 * q) data ++ fin).
+  { unfold S.pad, fin. fold len. rewrite app_assoc. rewrite firstn_skipn. reflexivity. }
+  assert (Hfirst : length (firstn (64 * q) data) = (64 * q)%nat).
+  { apply firstn_length_le. fold len. lia. }
+  rewrite Hpad. rewrite app_length, Hfirst, Hn2.
+  replace ((64 * q + 64 * n2) / 64)%nat with (q + n2)%nat
+    by (rewrite <- Nat.mul_add_distr_l, Nat.mul_comm, Nat.div_mul; lia).
+  rewrite blocks_of_app by exact Hfirst. rewrite fold_left_app.
+  rewrite <- (firstn_skipn (64 * q) data) in R1 at 1. rewrite blocks_of_prefix in R1 by exact Hfirst.
+  fold spec_absorb.
+  destruct st2 as [[[[m0 m1] m2] m3] m4].
+  destruct (fold_left spec_absorb (S.blocks_of n2 fin)
+              (fold_left spec_absorb (S.blocks_of q (firstn (64 * q) data)) S.IV)) as [[[[s0 s1] s2] s3] s4].
+  destruct R2 as (C0 & C1 & C2 & C3 & C4).
+  cbn [mapM]. rewrite (pack_word _ _ C0), (pack_word _ _ C1), (pack_word _ _ C2), (pack_word _ _ C3), (pack_word _ _ C4).
+  cbn [bind concat]. rewrite app_nil_r. reflexivity.
+Qed.
+
+(* beyond that length the code raises struct.error (the 64-bit length field overflows) — not reachable in practice *)
+Lemma ripemd160_too_long (data : bytes) : 2 ^ 61 <= Z.of_nat (length data) ->
+  M.ripemd160 data = Raise E_STRUCT \/ exists e, M.ripemd160 data = Raise e \/ M.ripemd160 data = OutOfFuel.
+Proof.
+  intros H. unfold M.ripemd160.
+  destruct (blocks_loop _ 0 data gen_init) as [st| |]; cbn [bind].
+  - left. unfold pack_Q. destruct ((0 <=? 8 * Z.of_nat (length data)) && (8 * Z.of_nat (length data) <? 2 ^ 64)) eqn:E; [lia|reflexivity].
+  - right. eexists. left. reflexivity.
+  - right. exists E_OTHER. right. reflexivity.
 Qed.
